@@ -73,6 +73,17 @@ fn gen_rule(rng: &mut Rng) -> Expr {
 }
 
 fn gen_input(rng: &mut Rng) -> Value {
+    if rng.chance(1, 12) {
+        // a big nested input: 100+ keys next to the ones the rules read
+        let mut m = BTreeMap::new();
+        for i in 0..(70 + rng.below(200)) {
+            m.insert(format!("key{i:03}"), if i % 9 == 0 { Value::Vec((0..i as i128 % 20).map(Value::Int).collect()) } else { Value::Int(i as i128) });
+        }
+        m.insert("a".to_string(), Value::Int(rng.below(3) as i128));
+        m.insert("b".to_string(), Value::Int(rng.below(2) as i128));
+        m.insert("nested".to_string(), Value::Map(m.clone()));
+        return Value::Map(m);
+    }
     match rng.below(6) {
         0 => Value::None,
         1 => Value::Int(3),
@@ -280,6 +291,28 @@ fn one_world(ctx: &mut Ctx, rng: &mut Rng) {
     if in_a != in_a_copy {
         return violation(ctx, "input-mutated", "the input value changed".into(), &rules, json!(null));
     }
+    // (a') the same storage holding different inputs one after the other, and equal inputs at different addresses
+    {
+        let mut slot: Box<Value> = Box::new(in_a.clone());
+        for (k, (input, want)) in [(&in_a, &ba), (&in_b, &bb), (&in_a, &ba), (&in_b, &bb)].into_iter().enumerate() {
+            *slot = input.clone();
+            ctx.count();
+            match baseline(&w0, &slot) {
+                Ok(b) if b.outcomes == want.outcomes && b.log == want.log => ctx.hit("repeat:same-address-different-input"),
+                Ok(b) => return violation(ctx, "outcome-depends-on-where-the-input-is-stored", format!("evaluation #{} through one storage location that holds a different input each time differs from evaluating that input alone", k + 1), &rules, json!({"got": format!("{:?}", b.outcomes), "expected": format!("{:?}", want.outcomes)})),
+                Err(p) => return violation(ctx, "evaluation-panicked", p, &rules, json!(null)),
+            }
+        }
+        let copies: Vec<Value> = (0..3).map(|_| in_a.clone()).collect();
+        for c in &copies {
+            ctx.count();
+            match baseline(&w0, c) {
+                Ok(b) if b.outcomes == ba.outcomes && b.log == ba.log => ctx.hit("repeat:equal-input-at-another-address"),
+                Ok(b) => return violation(ctx, "outcome-depends-on-where-the-input-is-stored", "an equal input at another address evaluates differently".into(), &rules, json!({"got": format!("{:?}", b.outcomes), "expected": format!("{:?}", ba.outcomes)})),
+                Err(p) => return violation(ctx, "evaluation-panicked", p, &rules, json!(null)),
+            }
+        }
+    }
 
     // (b) every function suspending 0..k times
     let kmax = 2;
@@ -482,6 +515,11 @@ fn large_world(ctx: &mut Ctx, rng: &mut Rng, n: usize) {
         Ok(b) => b,
         Err(p) => return violation(ctx, "evaluation-panicked", p, &small, json!(null)),
     };
+    // the straight run itself must be what the reference evaluator predicts (a baseline that is wrong in the same way under
+    // every schedule would otherwise go unnoticed)
+    if let Err(why) = agrees_with_model(&w0, &input) {
+        return violation(ctx, "large-evaluation-differs-from-the-reference-evaluator", why, &small, json!(null));
+    }
     ctx.count();
     ctx.hit(&format!("large:items{}", n));
     ctx.nontrivial(fnv(format!("large|{n}").as_bytes()));
@@ -555,7 +593,7 @@ fn run(ctx: &mut Ctx) {
 
 fn finish(m: &Merged, tier: Tier) -> Finish {
     let mut f = Finish {
-        rule: "for each generated (ruleset with suspending user functions, inputs): a straight unsuspended run defines the expected outcomes and invocation log; then (a) three repeats, (b) the functions suspending 0..2 times in all / sampled combinations, (c) all interleavings (up to the cap, else sampled) of two evaluations at their suspension points and sampled interleavings of three, (d) dropping an evaluation after j polls for every j and then running a fresh one, must reproduce outcomes and per-evaluation logs; the input and the rules must compare equal before and after. Non-trivial = schedules with at least one suspension / switch / mid-way drop; distinct by (ruleset, inputs, realised schedule)".into(),
+        rule: "for each generated (ruleset with suspending user functions, inputs): a straight unsuspended run defines the expected outcomes and invocation log; then (a) three repeats, (b) the functions suspending 0..2 times in all / sampled combinations, (c) all interleavings (up to the cap, else sampled) of two evaluations at their suspension points and sampled interleavings of three, (d) dropping an evaluation after j polls for every j and then running a fresh one, (e) rulesets with a 9 000 - 300 000-node rule under suspension, interleaving and drop, must reproduce outcomes and per-evaluation logs; a wake monitor flags every poll that returns Pending although the waker was not called (all suspensions created by the harness call it); the input and the rules must compare equal before and after. Non-trivial = schedules with at least one suspension / switch / mid-way drop; distinct by (ruleset, inputs, realised schedule)".into(),
         exhaustive: false,
         exhaustive_part: "per world: every cancellation index 0..polls; all interleavings of the two evaluations when their number is within the cap".into(),
         ..Default::default()
